@@ -55,6 +55,8 @@ func ruleC08(w *World, r *Report) {
 		}
 	}
 	k.merkleRule("C08.merkle")
+	// the writer of the time the Tendermint delay check reads
+	k.tmProcessedTimeRule("C08.delay.writer")
 
 	// ---- writer / reader key agreement
 	writers := map[string]string{} // class -> skeleton
